@@ -61,7 +61,7 @@ class GW:
             for d in ("Maildir", "Maildir/tmp", "Maildir/new", "Maildir/cur"):
                 os.makedirs(os.path.join(home, d))
             dd = "./Maildir/"
-            only = "Maildir"
+            only = "tmp/,new/,Maildir"
         sched = gate.Scheduler(self.sock)
         procs = []
         out = {"decisions": [], "verdict": None, "inconclusive": False, "steps": []}
@@ -74,7 +74,7 @@ class GW:
                                      stdin=open(mf, "rb"), stdout=subprocess.DEVNULL, stderr=subprocess.DEVNULL, env=env, cwd="/", start_new_session=True)
                 procs.append(p)
             t_end = time.time() + gate.WATCHDOG
-            while len([x for x in sched.procs if x.key and x.key.startswith("d") and x.msg is not None]) < len(msgs):
+            while len({x.key.split(".")[0] for x in sched.procs if x.key and x.msg is not None}) < len(msgs):
                 sched._pump(0.05)
                 if time.time() > t_end:
                     raise qworld.Inconclusive("deliveries did not reach their first gate")
@@ -100,7 +100,13 @@ class GW:
                     pick = en[0]
                 sched.grant(pick)
             out["steps"] = [(k.split(".")[0], c, kind_) for k, c, pth, kind_ in sched.steps]
-            rcs = [p.wait(timeout=10) for p in procs]
+            try:
+                rcs = [p.wait(timeout=10) for p in procs]
+            except subprocess.TimeoutExpired:
+                if os.environ.get("C12_GATE_DEBUG"):
+                    os.system("for p in $(pgrep -x qmail-local); do echo PID $p; cat /proc/$p/wchan; echo; grep -i 'state\\|ppid' /proc/$p/status; ls -l /proc/$p/fd | tail -6; done")
+                    print([(x.key, x.pid, x.state, x.msg) for x in sched.procs])
+                raise qworld.Inconclusive("a delivery did not exit after its last gated step")
             if any(rc != 0 for rc in rcs):
                 out["verdict"] = "concurrent deliveries exited %r (expected all 0)" % rcs
             elif kind == "mbox":
